@@ -47,11 +47,20 @@ def strategy_impl(draw, tier):
         hi = max(max(t) for t in thetas)
         edges[0] = min(edges[0], lo)
         edges[-1] = max(edges[-1], hi)
+    # density-like target data: a large offset with fine spacing (needs all of float64), together with data stored in single
+    # precision now and then - the overlaps are properties of the target data, whatever the precision of the transformed data
+    affine = draw(st.sampled_from([None, None, None, [1024.0, 2.0 ** -7], [100000.0, 2.0 ** -10]]))
+    if affine:
+        off, sc = affine
+        thetas = [[off + sc * x for x in t] for t in thetas]
+        edges = sorted(set(off + sc * x for x in edges))
+        if len(edges) < 2:
+            edges = [off - sc, off + sc]
     decreasing = draw(st.booleans())
     phi = draw(gen.data_values(lead + [n], elements=st.integers(-9, 9).map(float)))
     level = draw(st.sampled_from(["kernel", "kernel", "api"]))
     case = {"n": n, "lead": lead, "shared": shared, "thetas": thetas, "edges": edges, "decreasing": decreasing,
-            "phi": phi, "level": level}
+            "phi": phi, "level": level, "phi_dtype": draw(st.sampled_from(["float64", "float64", "float32"])), "affine": bool(affine)}
     if level == "api":
         case["api"] = {
             "td_pos": draw(st.sampled_from(["outer", "outer", "center"])),
@@ -88,7 +97,7 @@ def column_profiles(case):
     return profs
 
 
-def check_weight_matrix(Wgot, theta, inc_edges, what):
+def check_weight_matrix(Wgot, theta, inc_edges, what, tol=1e-12):
     """Wgot[j, i] for increasing edges vs the rational model."""
     W, free = TM.overlap_weights(theta, inc_edges)
     Wexp = TM.to_float(W)
@@ -96,10 +105,10 @@ def check_weight_matrix(Wgot, theta, inc_edges, what):
     for i, j1, j2 in free:
         mask[j1, i] = mask[j2, i] = False
         a, b = Wgot[j1, i], Wgot[j2, i]
-        if a < -1e-12 or b < -1e-12 or abs(a + b - 1.0) > 1e-12:
+        if a < -tol or b < -tol or abs(a + b - 1.0) > tol:
             raise Violation(f"{what}: homogeneous cell on an interior bin edge is not distributed with total 1",
                             cell=int(i), bins=[int(j1), int(j2)], weights=[float(a), float(b)], theta=list(map(float, theta)), edges=list(map(float, inc_edges)))
-    bad = mask & (np.abs(Wgot - Wexp) > 1e-12)
+    bad = mask & (np.abs(Wgot - Wexp) > tol)
     if bad.any():
         j, i = (int(x) for x in np.argwhere(bad)[0])
         raise Violation(f"{what}: weight differs from overlap fraction", bin=j, cell=i, got=float(Wgot[j, i]), expected=float(Wexp[j, i]),
@@ -108,7 +117,7 @@ def check_weight_matrix(Wgot, theta, inc_edges, what):
         raise Violation(f"{what}: negative weight", theta=list(map(float, theta)), edges=list(map(float, inc_edges)))
     if TM.within_span(theta, inc_edges):
         sums = Wgot.sum(axis=0)
-        if np.abs(sums - 1.0).max(initial=0) > 1e-12:
+        if np.abs(sums - 1.0).max(initial=0) > max(tol, 1e-12) * (1 if tol <= 1e-12 else len(theta)):
             i = int(np.argmax(np.abs(sums - 1.0)))
             raise Violation(f"{what}: quantity not conserved (column of weights does not sum to 1)", cell=i, total=float(sums[i]),
                             theta=list(map(float, theta)), edges=list(map(float, inc_edges)))
@@ -122,6 +131,9 @@ def check(case, ctx):
     inc = [float(x) for x in case["edges"]]
     bins = np.array(inc[::-1] if case["decreasing"] else inc)
     m = len(inc) - 1
+    pdt = np.dtype(case.get("phi_dtype", "float64"))
+    wtol = 1e-12 if pdt == np.float64 else 2e-6   # single-precision data come back in single precision
+    otol = 1e-10 if pdt == np.float64 else 1e-5
     phi = np.asarray(case["phi"], dtype=np.float64).reshape(tuple(lead) + (n,))
     profs = column_profiles(case)
     ncol = len(profs)
@@ -133,20 +145,20 @@ def check(case, ctx):
     Ws = []
     for c, th in enumerate(profs):
         tharr = np.array(th, dtype=np.float64)
-        out = must_return("interp_1d_conservative (unit vectors)", interp_1d_conservative, np.eye(n), np.broadcast_to(tharr, (n, n + 1)).copy(), np.array(inc))
-        W = np.asarray(out).T  # [bin, cell]
+        out = must_return("interp_1d_conservative (unit vectors)", interp_1d_conservative, np.eye(n, dtype=pdt), np.broadcast_to(tharr, (n, n + 1)).copy(), np.array(inc))
+        W = np.asarray(out, dtype=np.float64).T  # [bin, cell]
         if W.shape != (m, n):
             raise Violation("kernel output shape", got=list(W.shape), expected=[m, n])
-        on_edge = check_weight_matrix(W, th, inc, "kernel") or on_edge
+        on_edge = check_weight_matrix(W, th, inc, "kernel", wtol) or on_edge
         Ws.append(W)
         # merging two adjacent bins sums their contents
         if m >= 2:
             k = 1 + (c % (m - 1))
             merged = inc[:k] + inc[k + 1:]
-            out2 = must_return("interp_1d_conservative (merged bins)", interp_1d_conservative, np.eye(n), np.broadcast_to(tharr, (n, n + 1)).copy(), np.array(merged))
-            W2 = np.asarray(out2).T
+            out2 = must_return("interp_1d_conservative (merged bins)", interp_1d_conservative, np.eye(n, dtype=pdt), np.broadcast_to(tharr, (n, n + 1)).copy(), np.array(merged))
+            W2 = np.asarray(out2, dtype=np.float64).T
             Wsum = np.vstack([W[:k - 1], W[k - 1:k] + W[k:k + 1], W[k + 1:]])
-            if np.abs(W2 - Wsum).max(initial=0) > 1e-12:
+            if np.abs(W2 - Wsum).max(initial=0) > wtol:
                 raise Violation("merging two adjacent bins does not sum their contents", removed_edge=merged and inc[k], theta=list(map(float, th)), edges=inc,
                                 merged=W2.tolist(), summed=Wsum.tolist())
     expected = np.stack([Ws[c] @ phi_cols[c] for c in range(ncol)]).reshape(tuple(lead) + (m,))
@@ -156,26 +168,27 @@ def check(case, ctx):
 
     if case["level"] == "kernel":
         th_arg = np.array(profs[0]) if (case["shared"] and lead) else theta_full
-        got = np.asarray(must_return("interp_1d_conservative", interp_1d_conservative, phi, th_arg, bins))
+        got = np.asarray(must_return("interp_1d_conservative", interp_1d_conservative, phi.astype(pdt), th_arg, bins), dtype=np.float64)
         if got.shape != expected.shape:
             raise Violation("kernel output shape (multi-column)", got=list(got.shape), expected=list(expected.shape))
-        if np.abs(got - expected).max(initial=0) > 1e-10 * scale:
-            idx = tuple(int(x) for x in np.argwhere(np.abs(got - expected) > 1e-10 * scale)[0])
+        if np.abs(got - expected).max(initial=0) > otol * scale:
+            idx = tuple(int(x) for x in np.argwhere(np.abs(got - expected) > otol * scale)[0])
             raise Violation("multi-column / ordered-bin call differs from per-column weights (columns are not independent or the bin order "
                             "does more than reverse the output)", index=list(idx), got=float(got[idx]), expected=float(expected[idx]),
                             decreasing=case["decreasing"], lead=lead)
         # listing the bins in the other order only reverses the output
-        got_r = np.asarray(must_return("interp_1d_conservative (reversed bins)", interp_1d_conservative, phi, th_arg, bins[::-1].copy()))
+        got_r = np.asarray(must_return("interp_1d_conservative (reversed bins)", interp_1d_conservative, phi.astype(pdt), th_arg, bins[::-1].copy()), dtype=np.float64)
         if not np.array_equal(got_r, got[..., ::-1]):
             raise Violation("reversing the bin order does not simply reverse the output along the bin axis", lead=lead)
     else:
-        got = run_api(case, phi, profs, bins, expected, scale)
+        got = run_api(case, phi, profs, bins, expected, scale, pdt, otol)
 
     nonmono = any(not (all(a < b for a, b in zip(t[:-1], t[1:])) or all(a > b for a, b in zip(t[:-1], t[1:]))) for t in profs)
     repeated = any(len(set(t)) < len(t) for t in profs)
     edge_hit = any(x in inc for t in profs for x in t)
     nt = n >= 2 and m >= 2 and (nonmono or repeated or edge_hit or (case["decreasing"] and ncol >= 2))
-    classes = [f"level:{case['level']}", f"n:{n}", f"ncol:{min(ncol, 4)}", "decreasing" if case["decreasing"] else "increasing"]
+    classes = [f"level:{case['level']}", f"n:{n}", f"ncol:{min(ncol, 4)}", "decreasing" if case["decreasing"] else "increasing",
+               f"data:{pdt.name}", "density-like-target" if case.get("affine") else "order-one-target"]
     if nonmono:
         classes.append("non-monotonic")
     if on_edge:
@@ -189,7 +202,7 @@ def check(case, ctx):
     return {"nontrivial": bool(nt), "classes": classes}
 
 
-def run_api(case, phi, profs, bins, expected, scale):
+def run_api(case, phi, profs, bins, expected, scale, pdt=np.dtype("float64"), otol=1e-10):
     import xarray as xr
     from xgcm import Grid
 
@@ -209,7 +222,7 @@ def run_api(case, phi, profs, bins, expected, scale):
     ds = xr.Dataset(coords=coords)
     grid = must_return("Grid construction", Grid, ds, coords=gc, periodic=False, autoparse_metadata=False)
     order = [("zc" if d == "Z" else d) for d in api["order"]]
-    da = xr.DataArray(phi, dims=enames + ["zc"], name="q").transpose(*order)
+    da = xr.DataArray(phi.astype(pdt), dims=enames + ["zc"], name="q").transpose(*order)
     tdim = "zo" if api["td_pos"] == "outer" else "zc"
     raw = case["thetas"]
     if case["shared"] or not lead:
@@ -240,11 +253,11 @@ def run_api(case, phi, profs, bins, expected, scale):
     want_dims = enames + [newdim]
     if set(got.dims) != set(want_dims):
         raise Violation("output dimensions of the conservative transform", got=list(got.dims), expected=want_dims)
-    gv = np.asarray(got.transpose(*want_dims).values)
+    gv = np.asarray(got.transpose(*want_dims).values, dtype=np.float64)
     if gv.shape != expected.shape:
         raise Violation("output shape of the conservative transform", got=list(gv.shape), expected=list(expected.shape))
-    if np.abs(gv - expected).max(initial=0) > 1e-10 * scale:
-        idx = tuple(int(x) for x in np.argwhere(np.abs(gv - expected) > 1e-10 * scale)[0])
+    if np.abs(gv - expected).max(initial=0) > otol * scale:
+        idx = tuple(int(x) for x in np.argwhere(np.abs(gv - expected) > otol * scale)[0])
         raise Violation("Grid.transform(conservative) differs from per-column overlap weights", index=list(idx), got=float(gv[idx]),
                         expected=float(expected[idx]), td_pos=api["td_pos"], decreasing=case["decreasing"])
     centres = (np.array(bins)[1:] + np.array(bins)[:-1]) / 2.0
@@ -254,6 +267,6 @@ def run_api(case, phi, profs, bins, expected, scale):
     if all(TM.within_span(t, inc) for t in profs):
         tot_in = phi.sum(axis=-1)
         tot_out = gv.sum(axis=-1)
-        if np.abs(tot_in - tot_out).max(initial=0) > 1e-10 * scale:
+        if np.abs(tot_in - tot_out).max(initial=0) > otol * scale:
             raise Violation("sum over output bins differs from sum over input cells", sum_in=tot_in.tolist(), sum_out=tot_out.tolist())
     return gv
